@@ -100,11 +100,43 @@ def run(spec, R):
         shutil.rmtree(tmp, ignore_errors=True)
 
 
+LONG = 250      # the parser's default max_length: the longest sentence whose derivation depccg prints without being asked to
+
+
+def long_chains(R, lang, rng, path, write, read, key, check_symbols):
+    """a max_length-word sentence whose derivation is one chain, written and read back under the default recursion limit"""
+    from depccg.tree import ScoredTree
+    token_fn = (lambda r: treegen.en_token(r, 'ptb', None)) if lang == 'en' else (lambda r: treegen.ja_token(r, 'ja'))
+    for shape in ('right', 'left'):
+        n = rng.choice((LONG, LONG - 1, 200))
+        t = treegen.chain_tree(rng, lang, token_fn, n, shape)
+        R.case(('long-chain', lang, shape, n), True)
+        wit = {'words': n, 'shape': shape}
+        text = write([[ScoredTree(t, -1.0)]])
+        with open(path, 'w', encoding='utf-8') as f:
+            f.write(text)
+        try:
+            with treegen.default_recursion_limit():
+                got = list(read(path))
+        except Exception as e:
+            R.violation(f'{key}:raises', f'{key} raised {e!r} on the {n}-word {shape}-branching derivation depccg wrote '
+                        f'(default recursion limit)', wit)
+            continue
+        R.count(f'{key}:long-chains')
+        words = lambda w: (w, fmtcheck.escaped_word(w), fmtcheck.raw_word(w))     # noqa: E731
+        if len(got) != 1:
+            R.violation(f'{key}:shape', f'{len(got)} trees read from 1 written', wit)
+            continue
+        for kind, msg in same(t, got[0].tree, words, check_symbols)[:2]:
+            R.violation(f'{key}:{kind}', f'{n}-word chain: {msg}', wit)
+
+
 def run_ptb(spec, R, rng, path):
     env.install('en')
     env.stub_native_parsing()
     from depccg.printer import to_string
     from depccg.tools.reader import read_ptb
+    long_chains(R, 'en', rng, path, lambda b: to_string(b, format='ptb'), read_ptb, 'read_ptb', False)
     for i in range(spec['cases']):
         batch = treegen.make_batch(rng, 'en', 'ptb', max_sentences=2, max_nbest=2, licensed_share=0.5)
         flat = [st for trees in batch for st in trees]
@@ -174,6 +206,7 @@ def run_ja(spec, R, rng, path):
     env.stub_native_parsing()
     from depccg.printer.ja import ja_of
     from depccg.tools.ja.reader import read_ccgbank
+    long_chains(R, 'ja', rng, path, lambda b: ja_of(b[0][0].tree) + '\n', read_ccgbank, 'read_ccgbank', True)
     for i in range(spec['cases']):
         batch = treegen.make_batch(rng, 'ja', 'ja', max_sentences=3, max_nbest=2, licensed_share=0.6)
         flat = [st for trees in batch for st in trees]
